@@ -68,11 +68,12 @@ def cases():
     cpus = ['10%', '40%']
     sizes = ['1G', '2048M']
     traits = [[], ['t1'], ['t1', 't2']]
-    for lim_cpu, lim_sz, rcpu, rsz, rtr, atr, acpu, asz in itertools.product(
-            ['50%', '100%'], ['2G', '4G'], cpus, sizes, traits, traits, cpus, ['1G', '1048576K']):
-        part = {'cpu': '100%', 'memory': '8G', 'disk': '8G',
-                'limits': [{'trait': 't1', 'cpu': lim_cpu, 'memory': lim_sz, 'disk': lim_sz}]}
-        allocs = [{'_id': 'a/x/cell', 'cpu': acpu, 'memory': asz, 'disk': asz, 'traits': atr},
+    for lim_cpu, lim_sz, rcpu, rsz, rtr, atr, acpu, (amem, adisk), pmem in itertools.product(
+            ['50%', '100%'], ['2G', '4G'], cpus, sizes, traits, traits, cpus,
+            [('1G', '1G'), ('1048576K', '3G'), ('3G', '1024M')], ['8G', '3G']):
+        part = {'cpu': '100%', 'memory': pmem, 'disk': '8G',
+                'limits': [{'trait': 't1', 'cpu': lim_cpu, 'memory': lim_sz, 'disk': '4G'}]}
+        allocs = [{'_id': 'a/x/cell', 'cpu': acpu, 'memory': amem, 'disk': adisk, 'traits': atr},
                   {'_id': 'a/old/cell', 'cpu': '90%', 'memory': '7G', 'disk': '7G', 'traits': ['t1']}]
         rsrc = {'cpu': rcpu, 'memory': rsz, 'disk': rsz, 'partition': 'p', 'traits': rtr}
         yield {'part': part, 'allocs': allocs, 'rsrc': rsrc, 'old_id': 'a/old/cell'}
